@@ -439,6 +439,15 @@ func specLeader(store string) xstate.Spec {
 				}
 			case "lose":
 				if !isLeader && !s.pending[sh] {
+					// client-go also delivers OnStoppedLeading to a server that is not leading when its election loop ends
+					// (seen in the elector conformance run at shutdown): nothing may come of it
+					s.rig.Lose(sh)
+					if s.rig.H.Store(sh) != nil {
+						return fmt.Errorf("store-after-stray-loss: OnStoppedLeading for shard %d on a server that does not lead it left a store behind", sh)
+					}
+					if after := s.rig.Dump(s.ups[:], schemas); after != before {
+						return fmt.Errorf("stray-loss-changed-state: OnStoppedLeading for shard %d on a server that does not lead it changed the stores: %s -> %s", sh, before, after)
+					}
 					return nil
 				}
 				s.rig.Lose(sh)
@@ -591,7 +600,8 @@ func harnessesMapping(c *ev.Check, b int) []xa.Harness {
 func main() {
 	c := ev.Start("C13", "model_checking")
 	c.Assume = []string{
-		"client-go leader election is replaced by direct delivery of its three callbacks to the real leaderElector in the orders client-go v0.18 can produce them: OnStartedLeading only to a server that is not leading; OnNewLeader(other) at any time; after OnNewLeader(other) arrived at a leading server the next election callback is OnStoppedLeading (never OnStartedLeading); OnStoppedLeading only to a leading server",
+		"client-go leader election is replaced by direct delivery of its three callbacks to the real leaderElector in the orders client-go v0.18 can produce them: OnStartedLeading only to a server that is not leading; OnNewLeader(other) at any time; after OnNewLeader(other) arrived at a leading server the next election callback is OnStoppedLeading (never OnStartedLeading); OnStoppedLeading to a leading server, and (shutdown of the election loop) to one that is not - nothing may come of that one",
+		"elector conformance: two real leaderElectors (client-go leader election, 600 ms leases, one fake API) compete for a shard while the harness fails the current leader's lease updates three times in a row; the recorded callback traces obey these orders and are replayed, with requests between the callbacks, on the leadership spec",
 		"the limiter servers the gateway talks to are loopback HTTP stubs serving /ratelimit/endpoints; the gateway-side clientSets is the real one without its timer loops (its sync() is called by the driver)",
 		"names: every byte string of length <= 2 over a 24-byte alphabet plus generated realistic names; N from the stated list",
 	}
@@ -618,6 +628,7 @@ func main() {
 		tasks = append(tasks, ev.Task{Name: fmt.Sprint("server-side", n), Run: func() { serverSide(c, n, probe[:c.Pick(120, 600)]) }})
 	}
 	tasks = append(tasks, knowledgeTasks(c)...)
+	tasks = append(tasks, ev.Task{Name: "elector-conformance", Run: func() { electorConformance(c) }})
 	for _, b := range []int{0, 1, 2, c.Pick(2, 3)} {
 		for _, h := range harnessesMapping(c, b) {
 			tasks = append(tasks, xa.Tasks(c, h)...)
